@@ -93,8 +93,11 @@ example : Spec.C18 exUb (Board.run exUb) = true := run_spec exUb exUb_wf
 
 example : coopB exLnx = true := by decide +kernel
 
-example : (((Board.run exUb).res, (Board.run exUb).evs.getLast?, ((Board.run exUb).evs.filter fun e => e matches .wr ..).length) ==
-    (some .timeout, some (.poff 6144), 6)) = true := by decide +kernel
+/-- the failure is a `TimeoutError` within `boot_timeout` + one poll period (with the extracted
+    period of 0.5 s + 0.5 s: at 6.0 s, after six `^C`) -/
+example : (match (Board.run exUb).res, (Board.run exUb).evs.getLast? with
+    | some .timeout, some (.poff t) => decide (5120 < t ∧ t ≤ 5120 + (Params.ubootPollRead + Params.ubootPollSleep))
+    | _, _ => false) = true := by decide +kernel
 
 /-! ### F10 (fixed in the tree): askfirst banner `E` at 9.5 s, `boot_timeout` = 10 s, then silence -/
 
